@@ -44,14 +44,26 @@ def _writer(np, p, path):
 	return write, (spec, arrays, exp_ids, exp_meta)
 
 
-def _check_point(np, p, path, write, expected, n, count, labels, case):
-	from gambit.sigs.base import load_signatures
+def _prepare_path(np, path, pre):
+	"""State of the output path before the write: absent, an older complete signature file, or junk."""
 	if os.path.exists(path):
 		os.unlink(path)
+	if pre == 'old_sigfile':
+		from gambit.sigs.base import dump_signatures, SignatureArray, AnnotatedSignatures, SignaturesMeta
+		from gambit.kmers import KmerSpec
+		old = SignatureArray([np.array([1, 5, 9], dtype='u2'), np.array([2], dtype='u2'), np.array([], dtype='u2')], KmerSpec(7, 'GG'))
+		dump_signatures(path, AnnotatedSignatures(old, ['old-a', 'old-b', 'old-c'], SignaturesMeta(id='OLD FILE', id_attr='key')))
+	elif pre == 'junk':
+		open(path, 'wb').write(b'this was something else\n' * 50)
+
+
+def _check_point(np, p, path, write, expected, n, count, labels, case):
+	from gambit.sigs.base import load_signatures
+	_prepare_path(np, path, case.get('preexisting'))
 	status, info = crash.run_writer(write, n)
 	if status != 'killed':
 		raise HarnessError(f'writer child was not killed at point {n}: {status} {info}')
-	one = {'kind': 'point', 'payload': p, 'point': n}
+	one = {'kind': 'point', 'payload': p, 'point': n, 'preexisting': case.get('preexisting')}
 	try:
 		loaded = load_signatures(path)
 	except Exception as e:
@@ -171,6 +183,7 @@ def run_case(case, ctx):
 	path = ctx.fresh_path('.gs')
 	write, expected = _writer(np, p, path)
 	# dry run: count calls
+	_prepare_path(np, path, case.get('preexisting'))
 	status, info = crash.run_writer(write, None)
 	if status != 'done':
 		raise HarnessError(f'dry run failed: {status} {info}')
@@ -199,7 +212,7 @@ def run_case(case, ctx):
 		os.unlink(path)
 	big = sum(s[0] for s in p['sigs']) >= 100000
 	classes = ['path=' + ('array' if p['container'].endswith('array') else 'list'), f'compression={p["compression"]}',
-	           'multi_megabyte' if big else 'small', f'points={"<=16" if count <= 16 else "17-24" if count <= 24 else ">24"}']
+	           'multi_megabyte' if big else 'small', 'preexisting=' + str(case.get('preexisting')), f'points={"<=16" if count <= 16 else "17-24" if count <= 24 else ">24"}']
 	if loaded > 1:
 		classes.append('loads_before_close_returned')
 	return {'evals': evals, 'nontrivial_count': nt, 'nontrivial': True, 'classes': classes, 'points': count + 1,
@@ -211,7 +224,7 @@ def gen_case(draw, tier):
 	if draw(st.integers(0, 15)) == 15:
 		return {'kind': 'syscall_points', 'payload': draw(P.payload(max_sigs=8, allow_big=False)), 'max_points': 60}
 	p = draw(P.payload(max_sigs=10, allow_big=True))
-	return {'kind': 'all_points', 'payload': p}
+	return {'kind': 'all_points', 'payload': p, 'preexisting': draw(st.sampled_from([None, 'old_sigfile', None, 'junk', 'old_sigfile']))}
 
 
 def strategy(tier):
